@@ -11,4 +11,5 @@ if kind == "lean":
     print(" ".join(dict.fromkeys(t)))
 else:
     bins = dict.fromkeys(v["harness"] for v in registry.REG.values() if v.get("harness"))
-    print(" ".join(f"--bin {b}" for b in bins))
+    feats = sorted({f for v in registry.REG.values() for f in (v.get("cargo_features") or [])})
+    print(" ".join(f"--bin {b}" for b in bins) + (" --features " + ",".join(feats) if feats else ""))
